@@ -118,15 +118,32 @@ pub struct Interp {
 	/// after an I/O failure the writer is stopped: a removal that was accepted but never logged
 	/// need not be visible (trees / rc keys have no overlay entry for removals)
 	pub relaxed_dead: bool,
+	pub excluded_known: std::cell::Cell<u64>,
+	/// regression cases of known findings run without the exclusions
+	pub strict_known: bool,
 }
+
+pub type TreeHandle = std::sync::Arc<parking_lot::RwLock<Box<dyn parity_db::TreeReader + Send + Sync>>>;
 
 pub struct LockedTree {
 	pub col: u8,
 	pub root: u16,
-	pub reader: std::sync::Arc<dyn std::any::Any + Send + Sync>,
-	pub unlock: Box<dyn FnOnce()>,
-	/// snapshot of the tree at lock time: canonical form
+	pub tree: TreeHandle,
+	/// the tree as it was when the lock was taken
 	pub snapshot: CanonTree,
+	/// dereferences of the locked tree accepted while the lock is held: applied to the model
+	/// when the lock is released (the removal is postponed)
+	pub deferred: Vec<(u8, u16)>,
+	/// (col, key id) written by a transaction that also dereferenced the locked tree
+	pub deferred_keys: BTreeSet<(u8, u16)>,
+	pub steps_while_locked: u32,
+}
+
+impl LockedTree {
+	fn unlock(self) {
+		// SAFETY: the read guard taken in `lock_tree` was forgotten, this releases exactly it.
+		unsafe { self.tree.force_unlock_read() };
+	}
 }
 
 #[derive(Clone, Debug, PartialEq, Eq)]
@@ -166,6 +183,8 @@ impl Interp {
 			commits_since_open: 0,
 			ever_roots: BTreeSet::new(),
 			relaxed_dead: false,
+			excluded_known: std::cell::Cell::new(0),
+			strict_known: false,
 		}
 	}
 
@@ -227,7 +246,7 @@ impl Interp {
 	pub fn close(&mut self) {
 		self.iters.clear();
 		if let Some(l) = self.locked.take() {
-			(l.unlock)();
+			l.unlock();
 		}
 		self.db = None;
 	}
@@ -325,6 +344,7 @@ impl Interp {
 	/// (e.g. dereferencing when no tree is live) are dropped.
 	pub fn resolve(&self, items: &[Item]) -> Vec<(u8, RChange)> {
 		let mut out = Vec::new();
+		let pending_deferral = self.locked.as_ref().map_or(false, |l| !l.deferred.is_empty());
 		let mut has_deref = BTreeSet::new();
 		for it in items {
 			if matches!(it.ch, Change::DerefTree(_) | Change::DerefTreeKey(_)) {
@@ -339,6 +359,21 @@ impl Interp {
 				continue
 			}
 			let ccfg = &self.cfg.cols[col as usize];
+			if pending_deferral && !self.strict_known {
+				// known finding (commit deferral re-orders the whole transaction): a later
+				// transaction must not write a key the postponed transaction also wrote, and
+				// must not touch the locked root again
+				let l = self.locked.as_ref().unwrap();
+				let clash = match &it.ch {
+					Change::Set(k, _) | Change::Del(k) | Change::Ref(k) => l.deferred_keys.contains(&(col, *k)),
+					Change::DerefTree(_) | Change::RefTree(_) | Change::DerefTreeKey(_) | Change::RefTreeKey(_) => col == l.col,
+					_ => false,
+				};
+				if clash {
+					self.excluded_known.set(self.excluded_known.get() + 1);
+					continue
+				}
+			}
 			let rc = match &it.ch {
 				Change::Set(k, v) => RChange::Set(
 					*k,
@@ -354,7 +389,7 @@ impl Interp {
 					// tree's reader, would trigger commit deferral (C11's domain, not this check's).
 					while live.contains(&root) ||
 						used_roots.contains(&(col, root)) ||
-						(self.background && self.ever_roots.contains(&(col, root)))
+						((self.background || self.locked.is_some()) && self.ever_roots.contains(&(col, root)))
 					{
 						root = root.wrapping_add(1);
 					}
@@ -447,7 +482,26 @@ impl Interp {
 		}
 		// accepted: apply to the model
 		let mut created: Vec<(u8, u16, Vec<NodeId>)> = Vec::new();
+		let derefs_locked = match &self.locked {
+			Some(l) => tx.iter().any(|(c, ch)| *c == l.col && matches!(ch, RChange::DerefTree(r) if *r == l.root)),
+			None => false,
+		};
 		for (col, ch) in tx {
+			if derefs_locked {
+				let l = self.locked.as_mut().unwrap();
+				match ch {
+					RChange::DerefTree(r) if *col == l.col && *r == l.root => {
+						// the removal is postponed until the lock is released
+						l.deferred.push((*col, *r));
+						self.labels.insert("deref-of-locked-tree-committed");
+						continue
+					},
+					RChange::Set(k, _) | RChange::Del(k) | RChange::Ref(k) => {
+						l.deferred_keys.insert((*col, *k));
+					},
+					_ => {},
+				}
+			}
 			let ids = self.model.apply(&self.cfg, *col, ch);
 			if let RChange::InsertTree(root, _) = ch {
 				created.push((*col, *root, ids));
@@ -519,6 +573,65 @@ impl Interp {
 		Ok(())
 	}
 
+	/// Takes (and keeps) the read lock of the tree reader of a live root.
+	pub fn lock_tree(&mut self, col: u8, sel: u16) -> Res<()> {
+		if self.locked.is_some() || self.cfg.cols.get(col as usize).map_or(true, |c| c.kind != Kind::Multi) {
+			return Ok(())
+		}
+		let live = self.live_roots(col);
+		if live.is_empty() {
+			return Ok(())
+		}
+		let root = live[pick(sel, live.len())];
+		let key = self.cfg.cols[col as usize].key(root);
+		let tree: TreeHandle = match self.db().get_tree(col, &key) {
+			Ok(Some(t)) => t,
+			Ok(None) => fail!("live-tree-unreadable", "get_tree({col},{root}) = None for a live root"),
+			Err(e) => fail!(format!("get_tree-failed:{}", err_sig(&e)), "get_tree failed: {e}"),
+		};
+		std::mem::forget(tree.read());
+		let snapshot = match self.canon_model_tree(col, root) {
+			Some(s) => s,
+			None => {
+				unsafe { tree.force_unlock_read() };
+				return Ok(())
+			},
+		};
+		self.locked = Some(LockedTree { col, root, tree, snapshot, deferred: vec![], deferred_keys: BTreeSet::new(), steps_while_locked: 0 });
+		self.labels.insert("tree-locked");
+		Ok(())
+	}
+
+	pub fn unlock_tree(&mut self) {
+		if let Some(l) = self.locked.take() {
+			let deferred = l.deferred.clone();
+			l.unlock();
+			for (col, root) in deferred {
+				self.model.apply(&self.cfg.clone(), col, &RChange::DerefTree(root));
+			}
+			if self.keep_prefix {
+				if let Some(last) = self.prefix.last_mut() {
+					*last = self.model.clone();
+				}
+			}
+		}
+	}
+
+	/// While the lock is held the locked tree must read back exactly as when it was locked.
+	pub fn check_locked_tree(&mut self) -> Res<()> {
+		if let Some(l) = &self.locked {
+			let got = self.read_tree(l.col, l.root)?;
+			match got {
+				Some((g, _)) =>
+					if g != l.snapshot {
+						fail!("locked-tree-changed", "col {} root {}: the tree read through the locked reader differs from its state at lock time: got {} want {}", l.col, l.root, canon_brief(&g), canon_brief(&l.snapshot))
+					},
+				None => fail!("locked-tree-vanished", "col {} root {}: root not readable while the reader lock is held", l.col, l.root),
+			}
+		}
+		Ok(())
+	}
+
 	pub fn step(&mut self, op: &Op) -> Res<StepOut> {
 		match op {
 			Op::Commit(items) => {
@@ -529,6 +642,9 @@ impl Interp {
 				return Ok(r)
 			},
 			Op::P => {
+				if let Some(l) = self.locked.as_mut() {
+					l.steps_while_locked += 1;
+				}
 				let before = self.pipeline().0;
 				let r = self.db().process_commits();
 				if self.lib("process_commits", r)?.is_none() {
@@ -609,8 +725,15 @@ impl Interp {
 				self.iter_op(*col, iop)?;
 				return Ok(StepOut::Done)
 			},
-			Op::LockTree(..) | Op::UnlockTree | Op::Poison(..) | Op::BgError => {
-				// handled by the C08 / C11 drivers
+			Op::LockTree(col, sel) => {
+				self.lock_tree(*col, *sel)?;
+				return Ok(StepOut::Done)
+			},
+			Op::UnlockTree => {
+				self.unlock_tree();
+			},
+			Op::Poison(..) | Op::BgError => {
+				// handled by the C08 driver
 			},
 		}
 		if let Some(t) = self.sync_track.as_mut() {
